@@ -117,8 +117,10 @@ impl SpeechGenerator {
             eprintln!("The speech generator has already synthesized some frames.");
         }
 
-        let mut buf = vec![0.0; (self.lf0.len() - self.next) * self.fperiod];
-        while self.generate_step(&mut buf[self.next * self.fperiod..]) > 0 {}
+        // `buf` only holds the frames that are not synthesized yet, so index it relative to `start`.
+        let start = self.next.min(self.lf0.len());
+        let mut buf = vec![0.0; (self.lf0.len() - start) * self.fperiod];
+        while self.generate_step(&mut buf[(self.next - start) * self.fperiod..]) > 0 {}
 
         buf
     }
